@@ -108,6 +108,8 @@ pub struct Cx {
     progress: Option<*mut u64>,
     skip: HashSet<(u64, u64)>,
     only: Option<(u64, u64)>,
+    /// replaying: also execute the cases of the unit that precede the target
+    history: bool,
     pub crash_policy: CrashPolicy,
     pub verbose: bool,
 }
@@ -132,6 +134,7 @@ impl Cx {
             progress: None,
             skip: HashSet::new(),
             only: None,
+            history: false,
             crash_policy,
             verbose: false,
         }
@@ -150,6 +153,10 @@ impl Cx {
             }
         }
         if let Some(o) = self.only {
+            if self.history {
+                // replay with history: every case of the unit up to the target
+                return self.unit == o.0 && sub <= o.1;
+            }
             return o == (self.unit, sub);
         }
         if !self.skip.is_empty() && self.skip.contains(&(self.unit, sub)) {
@@ -182,7 +189,7 @@ impl Cx {
         let sig = sig.into();
         let (unit, sub) = (self.unit, self.sub);
         let detail = detail.into();
-        if self.verbose || self.only.is_some() {
+        if self.verbose || (self.only.is_some() && !self.history) {
             println!("  violation [{sig}] unit={unit} sub={sub}: {detail}\n    case: {desc}");
         }
         // debugging aid for triage: FV_ALL_VIOLATIONS=<file> lists every
@@ -334,7 +341,11 @@ pub fn panic_site(msg: &str) -> String {
 
 fn run_dir(id: &str) -> std::path::PathBuf {
     let base = std::env::var("FV_RUN_DIR").unwrap_or_else(|_| "/verif/.target/fv-run".to_owned());
-    let p = std::path::PathBuf::from(base).join(id);
+    // one directory per run (parent pid): two concurrent runs of the same check
+    // must not share progress files (a second run removing the first one's files
+    // made the first one's watchdog see "no progress" and report a hang)
+    let run = std::env::var("FV_RUN_ID").unwrap_or_else(|_| std::process::id().to_string());
+    let p = std::path::PathBuf::from(base).join(format!("{id}-{run}"));
     std::fs::create_dir_all(&p).ok();
     p
 }
@@ -438,14 +449,20 @@ pub fn run_unit_verbose(check: &dyn Check, tier: Tier, unit: usize) {
 }
 
 /// Replays a single case in this process.  Returns true if it violates.
-pub fn replay_case(check: &dyn Check, tier: Tier, unit: u64, sub: u64) -> bool {
+pub fn replay_case(check: &dyn Check, tier: Tier, unit: u64, sub: u64, history: bool) -> bool {
     install_panic_hook();
     let meta = check.meta(tier);
     let mut cx = Cx::new(tier, meta.crash_policy);
     cx.only = Some((unit, sub));
+    cx.history = history;
     cx.unit = unit;
-    cx.verbose = true;
+    cx.verbose = !history;
     check.run_unit(tier, unit as usize, &mut cx);
+    if history {
+        for v in cx.violations.values() {
+            println!("  violation [{}] (first at unit={} sub={}) x{}: {}", v.sig, v.unit, v.sub, v.count, v.detail);
+        }
+    }
     let n: u64 = cx.violations.values().map(|v| v.count).sum();
     let d: u64 = cx.deferred.values().map(|v| v.count).sum();
     if n == 0 && d == 0 {
@@ -565,6 +582,7 @@ fn run_shard(
             .join(",");
         let remaining = (budget_s - t0.elapsed().as_secs_f64()).max(1.0);
         let mut child = std::process::Command::new(&exe)
+            .env("FV_RUN_ID", std::process::id().to_string())
             .args([
                 "worker",
                 id,
@@ -824,6 +842,32 @@ pub fn check_main(check: &dyn Check, tier: Tier) -> i32 {
                 .stdout(std::process::Stdio::null())
                 .stderr(std::process::Stdio::null())
                 .status();
+            // second attempt: the same case after the cases of its unit that precede
+            // it, in one process - a subject whose behaviour depends on what was
+            // evaluated before (an uninitialised register in generated code, a
+            // leaked buffer) fails again only with that history
+            let st = match st {
+                Ok(s) if s.code() == Some(0) => {
+                    let st2 = std::process::Command::new(std::env::current_exe().unwrap())
+                        .args(["replay", path.to_str().unwrap(), "--history"])
+                        .env("RUST_BACKTRACE", "0")
+                        .stdout(std::process::Stdio::null())
+                        .stderr(std::process::Stdio::null())
+                        .status();
+                    match st2 {
+                        Ok(s2) if s2.code() == Some(1) => {
+                            lines.push(format!(
+                                "  note: [{}] fails again only after the preceding cases of its unit (the subject's behaviour depends on earlier evaluations): ./check replay {} --history",
+                                v.sig,
+                                path.display()
+                            ));
+                            Ok(s2)
+                        }
+                        _ => Ok(s),
+                    }
+                }
+                other => other,
+            };
             if let Ok(st) = st {
                 if st.code() == Some(0) {
                     if check.replay_attempts() > 1 {
@@ -918,6 +962,8 @@ pub fn check_main(check: &dyn Check, tier: Tier) -> i32 {
         serde_json::to_string_pretty(&ev).unwrap(),
     )
     .expect("write evidence");
+    // the per-run progress directory is no longer needed
+    let _ = std::fs::remove_dir_all(run_dir(id));
 
     for l in &lines {
         println!("{l}");
@@ -973,7 +1019,7 @@ fn crash_kind(how: &str) -> &'static str {
     }
 }
 
-pub fn replay_file(checks: &[&dyn Check], path: &str) -> i32 {
+pub fn replay_file(checks: &[&dyn Check], path: &str, history: bool) -> i32 {
     let s = match std::fs::read_to_string(path) {
         Ok(s) => s,
         Err(e) => {
@@ -993,7 +1039,7 @@ pub fn replay_file(checks: &[&dyn Check], path: &str) -> i32 {
     println!("  recorded: [{}] {}", v["signature"].as_str().unwrap_or(""), v["detail"].as_str().unwrap_or(""));
     let attempts = check.replay_attempts();
     for a in 0..attempts {
-        if replay_case(*check, tier, unit, sub) {
+        if replay_case(*check, tier, unit, sub, history) {
             if attempts > 1 {
                 println!("  (failed on attempt {} of up to {attempts})", a + 1);
             }
